@@ -20,6 +20,7 @@ import (
 
 	"github.com/inbucket/inbucket/v3/pkg/config"
 	"github.com/inbucket/inbucket/v3/pkg/extension"
+	"github.com/inbucket/inbucket/v3/pkg/storage"
 	"github.com/inbucket/inbucket/v3/pkg/storage/file"
 	"github.com/inbucket/inbucket/v3/pkg/verifhook"
 )
@@ -35,7 +36,8 @@ type job struct {
 	Path       string  `json:"path"`
 	Cap        int     `json:"cap"`
 	Op         *opSpec `json:"op"`
-	KillAtHook int     `json:"kill_at_hook"` // >0: SIGKILL itself when the n-th file.fs hook is reached
+	KillAtHook int     `json:"kill_at_hook"`  // >0: SIGKILL itself when the n-th file.fs hook is reached
+	Seq        *seqJob `json:"seq,omitempty"` // restart stream (restart.go): a sequence of deliveries instead of Op
 }
 
 // victimMain runs inside the vcheck binary when VERIF_C11_VICTIM names a job file.  It is
@@ -53,12 +55,10 @@ func victimMain() {
 		fmt.Fprintln(os.Stderr, "c11 victim: bad job:", err)
 		os.Exit(5)
 	}
-	st, err := file.New(config.Storage{Type: "file", Params: map[string]string{"path": j.Path}, MailboxMsgCap: j.Cap},
-		extension.NewHost())
-	if err != nil {
-		fmt.Fprintln(os.Stderr, "c11 victim: cannot open store:", err)
-		os.Exit(5)
+	if j.Seq != nil {
+		seqVictim(&j) // never returns
 	}
+	st := openVictimStore(&j)
 	if j.KillAtHook > 0 {
 		n := 0
 		verifhook.Set(func(site string, args ...string) {
@@ -83,6 +83,16 @@ func victimMain() {
 		os.Exit(4)
 	}
 	os.Exit(0)
+}
+
+func openVictimStore(j *job) storage.Store {
+	st, err := file.New(config.Storage{Type: "file", Params: map[string]string{"path": j.Path}, MailboxMsgCap: j.Cap},
+		extension.NewHost())
+	if err != nil {
+		fmt.Fprintln(os.Stderr, "c11 victim: cannot open store:", err)
+		os.Exit(5)
+	}
+	return st
 }
 
 // ---- strace availability ----
@@ -145,21 +155,30 @@ func (k *caseRun) runVictim(j *job, strace []string) victimResult {
 	} else {
 		cmd = exec.CommandContext(ctx, k.c.SelfExe)
 	}
+	cmd.Env = victimEnviron(jobPath)
+	var errBuf strings.Builder
+	cmd.Stderr = &errBuf
+	err = cmd.Run()
+	if ctx.Err() != nil {
+		return victimResult{stderr: errBuf.String(), timedOut: true}
+	}
+	return waitResult(err, errBuf.String())
+}
+
+// victimEnviron is the environment of a victim process executing the job file.
+func victimEnviron(jobPath string) []string {
 	var env []string
 	for _, e := range os.Environ() {
 		if !strings.HasPrefix(e, "GOMAXPROCS=") && !strings.HasPrefix(e, "GORACE=") && !strings.HasPrefix(e, "GOTRACEBACK=") {
 			env = append(env, e)
 		}
 	}
-	cmd.Env = append(env, "GOMAXPROCS=1", victimEnv+"="+jobPath)
-	var errBuf strings.Builder
-	cmd.Stderr = &errBuf
-	err = cmd.Run()
-	res := victimResult{stderr: errBuf.String()}
-	if ctx.Err() != nil {
-		res.timedOut = true
-		return res
-	}
+	return append(env, "GOMAXPROCS=1", victimEnv+"="+jobPath)
+}
+
+// waitResult classifies how a victim ended from the error of cmd.Run / cmd.Wait.
+func waitResult(err error, stderr string) victimResult {
+	res := victimResult{stderr: stderr}
 	if ee, ok := err.(*exec.ExitError); ok {
 		if ws, ok := ee.Sys().(syscall.WaitStatus); ok {
 			if ws.Signaled() {
